@@ -368,3 +368,9 @@ package state
 //@   modifies GWrites, abciAPI.GTreeW
 //@   ensures abciAPI.OnlyTree(s.ms)
 //@   note removes the per-epoch signing record; no balance is stored there
+
+//@ func EpochSigning.EligibleEntities
+//@   props C01 C05
+//@   requires es != nil
+//@   ensures err == nil ==> ordDet(result0)
+//@   note entities eligible for the epoch-signing reward are collected from a Go map and returned sorted: rewards are paid in an order that is a function of state
